@@ -2,7 +2,7 @@
    check_corr: the model computes the same observation.  check_spec: the property's specification (Spec.v) holds of
    the implementation's observation.  Must not import Proofs/Props. *)
 From Coq Require Import ZArith NArith QArith Bool List.
-Require Import QV.common.Util QV.C15.Model QV.C15.Spec QV.C15.ModelQ.
+Require Import QV.common.Util QV.C15.Model QV.C15.Spec QV.C15.ModelQ QV.C15.ModelMC.
 Import ListNotations.
 Open Scope Z_scope.
 
@@ -16,6 +16,10 @@ Inductive tab_obs :=
 | TbErr
 | Tb (adv : list (Z * nat)) (tabs : list (list (Z * N * bool))) (wfs : list N) (pos : list tpos) (warn : bool).
 
+(* observation of a program after make_compatible: count, volatile?, leaf waveform as the atoms it plays, children *)
+Inductive cotree := CO (count : Z) (vol : bool) (wf : option (list N)) (ch : list cotree).
+Inductive cobs := CoErr | CoNone | CoTree (t : cotree) (warn : bool).
+
 Inductive case :=
 | CTree (p : pt) (vals : list (name * Z)) (V : list name) (pl : pipeline) (ups : list (list (name * Z)))
         (before : tobs) (after : list otree) (fresh : list tobs)
@@ -26,8 +30,10 @@ Inductive case :=
    (None = ParameterNotIntegerException, Some None = no program, Some (Some c) = count c) *)
 | CFrac (e : expr) (vals : list (name * Q)) (ups : list (list (name * Q))) (after : list Z)
         (fresh : list (option (option Z)))
-(* make_compatible pipeline: not modelled; the verdict comes from the Python-side oracle py_spec (sampled play-back of
-   the updated program = sampled play-back of a fresh instantiation + make_compatible) *)
+(* make_compatible pipeline (ModelMC.v): the program after make_compatible(min_len, quantum), after every update, and
+   of a fresh instantiation + make_compatible with the updated values; leaf waveforms as lists of atoms *)
+| CCompat (p : pt) (vals : list (name * Z)) (V : list name) (mn q : Z) (ups : list (list (name * Z)))
+          (before : cobs) (after : list cotree) (fresh : list cobs)
 | CSpecOnly
 | CCrash.
 
@@ -148,6 +154,59 @@ Definition fresh_eqb (a b : option (option Z)) : bool :=
   | _, _ => false
   end.
 
+
+(* --- make_compatible --- *)
+(* lengths in samples of the atoms of the make_compatible stream *)
+Definition AL (a : N) : Z := nth (N.to_nat a) [192; 384; 96; 192; 576] 192.
+(* which _make_compatible /repo has: false = as it is (no warning for a volatile count inside a concatenated
+   sub-program), true = with the repair prepared in round 3 *)
+Definition REPAIRED : bool := false.
+
+Fixpoint cobs_of (t : cprog) : cotree :=
+  match t with CNode r w ch => CO (rcount r) (is_vol r) w (map cobs_of ch) end.
+
+Definition run_compat (p : pt) (vals : list (name * Z)) (V : list name) (mn q : Z) : cobs * option cprog :=
+  match create_program p vals V with
+  | Err _ => (CoErr, None)
+  | Ok None => (CoNone, None)
+  | Ok (Some t) => match make_compatible REPAIRED AL mn q (cprog_of t) with
+                   | Err _ => (CoErr, None)
+                   | Ok (t', w, _) => (CoTree (cobs_of t') w, Some t')
+                   end
+  end.
+
+Fixpoint cotree_eqb (a b : cotree) : bool :=
+  match a, b with
+  | CO c1 v1 w1 ch1, CO c2 v2 w2 ch2 =>
+      (c1 =? c2) && Bool.eqb v1 v2 &&
+      match w1, w2 with None, None => true | Some x, Some y => list_N_eqb x y | _, _ => false end &&
+      (fix go (x y : list cotree) : bool :=
+         match x, y with
+         | [], [] => true
+         | p :: x', q :: y' => cotree_eqb p q && go x' y'
+         | _, _ => false
+         end) ch1 ch2
+  end.
+Definition cobs_eqb (a b : cobs) : bool :=
+  match a, b with
+  | CoErr, CoErr => true
+  | CoNone, CoNone => true
+  | CoTree x wx, CoTree y wy => cotree_eqb x y && Bool.eqb wx wy
+  | _, _ => false
+  end.
+
+Fixpoint compat_afters (t : cprog) (ups : list (list (name * Z))) : list cotree :=
+  match ups with
+  | [] => []
+  | us :: r => let t' := cupdate us t in cobs_of t' :: compat_afters t' r
+  end.
+Fixpoint compat_freshes (p : pt) (vals : list (name * Z)) (V : list name) (mn q : Z) (ups : list (list (name * Z)))
+  : list cobs :=
+  match ups with
+  | [] => []
+  | us :: r => let vals' := override us vals in fst (run_compat p vals' V mn q) :: compat_freshes p vals' V mn q r
+  end.
+
 Definition check_corr (c : case) : bool :=
   match c with
   | CTree p vals V pl ups before after fresh =>
@@ -169,6 +228,14 @@ Definition check_corr (c : case) : bool :=
   | CFrac e vals ups after fresh =>
       let st := frac_steps e vals ups in
       list_eqb Z.eqb (map fst st) after && list_eqb fresh_eqb (map snd st) fresh
+  | CCompat p vals V mn q ups before after fresh =>
+      let '(b, t) := run_compat p vals V mn q in
+      cobs_eqb b before &&
+      match t with
+      | Some t0 => list_eqb cotree_eqb (compat_afters t0 ups) after
+      | None => match after with [] => true | _ => false end
+      end &&
+      list_eqb cobs_eqb (compat_freshes p vals V mn q ups) fresh
   | CSpecOnly => true
   | CCrash => false
   end.
@@ -320,6 +387,31 @@ Definition check_spec_tabor p vals V ups before after fresh : bool :=
   | Tb _ _ _ _ _ => spec_tabor_steps p vals V before ups after fresh
   end.
 
+
+(* --- make_compatible: if make_compatible emitted no VolatileModificationWarning (volatility is said to be kept) then
+   after every update the program plays what a fresh instantiation + make_compatible with the new values plays
+   (compared whenever that fresh run exists and did not warn either) --- *)
+Fixpoint coplay (t : cotree) : list N :=
+  match t with
+  | CO c _ w ch =>
+      repeat_list (Z.to_nat (Z.min c COUNT_LIMIT))
+                  (match ch with [] => match w with Some l => l | None => [] end | _ => flat_map coplay ch end)
+  end.
+
+Definition check_spec_compat (V : list name) (ups : list (list (name * Z))) (before : cobs) (after : list cotree)
+           (fresh : list cobs) : bool :=
+  if negb (forallb (fun us => keys_in us V) ups) then true else
+  match before with
+  | CoTree _ false =>
+      Nat.eqb (length after) (length ups) && Nat.eqb (length fresh) (length ups) &&
+      forallb (fun af => match snd af with
+                         | CoTree ft false => list_N_eqb (coplay (fst af)) (coplay ft)
+                         | CoNone => match coplay (fst af) with [] => true | _ => false end
+                         | _ => true
+                         end) (combine after fresh)
+  | _ => true
+  end.
+
 Definition check_spec (c : case) : bool :=
   match c with
   | CTree p vals V pl ups before after fresh => check_spec_tree p vals V pl ups before after fresh
@@ -332,6 +424,7 @@ Definition check_spec (c : case) : bool :=
                          | Some None => fst af =? 0
                          | None => false
                          end) (combine after fresh)
+  | CCompat _ _ V _ _ ups before after fresh => check_spec_compat V ups before after fresh
   | CSpecOnly => true
   | CCrash => false
   end.
